@@ -2507,8 +2507,11 @@ func (d *decoderCborBytes) kMap(f *decFnInfo, rv reflect.Value) {
 					rvSetDirect(rvv, reflect.New(vElem))
 				}
 				d.decode(rv2i(rvv))
-			} else {
+			} else if rvv.CanAddr() {
 				d.decode(rv2i(rvAddr(rvv, ti.tielem.ptr)))
+			} else {
+
+				d.decodeValueNoCheckNil(rvv, valFn)
 			}
 		} else {
 			d.decodeValueNoCheckNil(rvv, valFn)
@@ -6533,8 +6536,11 @@ func (d *decoderCborIO) kMap(f *decFnInfo, rv reflect.Value) {
 					rvSetDirect(rvv, reflect.New(vElem))
 				}
 				d.decode(rv2i(rvv))
-			} else {
+			} else if rvv.CanAddr() {
 				d.decode(rv2i(rvAddr(rvv, ti.tielem.ptr)))
+			} else {
+
+				d.decodeValueNoCheckNil(rvv, valFn)
 			}
 		} else {
 			d.decodeValueNoCheckNil(rvv, valFn)
